@@ -6,6 +6,7 @@ use crate::report::{Report, Tier};
 use crate::semi::*;
 use anytls_rs::session::{Session, Stream};
 use serde_json::json;
+use std::sync::Mutex;
 use std::sync::Arc;
 use std::sync::atomic::Ordering;
 use std::time::Duration;
@@ -162,6 +163,185 @@ async fn run_history_cfg(tls_connections: Arc<std::sync::atomic::AtomicUsize>, f
     viols
 }
 
+// ---------------------------------------------------------------- virtual-time family (in-memory dialer seam)
+
+#[derive(Clone, Copy, Debug, PartialEq, Eq, Hash)]
+enum VOp {
+    Start,
+    Finish(usize),
+    /// the server drops the j-th connection the client dialled
+    Die(usize),
+    /// 0: half a check interval; 1: longer than idle timeout + check interval
+    Wait(u8),
+}
+
+fn vstr(h: &[VOp]) -> String {
+    h.iter().map(|o| match o { VOp::Start => "start".to_string(), VOp::Finish(i) => format!("finish({i})"), VOp::Die(j) => format!("die({j})"), VOp::Wait(0) => "wait(I/2)".to_string(), VOp::Wait(_) => "wait(>T+I)".to_string() }).collect::<Vec<_>>().join(",")
+}
+
+/// One history on the real Client over the in-memory dialer seam, virtual time; same model and keys as the LX family.
+fn vhistory(interval_ms: u64, timeout_ms: u64, min_idle: usize, h: Vec<VOp>) -> Vec<(String, String)> {
+    use crate::cworld::*;
+    use crate::ctl::{ExecCfg, Outcome, run_exec, scenario, settle};
+    let slot: Arc<Mutex<Vec<(String, String)>>> = Arc::new(Mutex::new(vec![]));
+    let slot2 = slot.clone();
+    let hs = vstr(&h);
+    let sc = scenario(move || {
+        let h = h.clone();
+        let slot2 = slot2.clone();
+        let hs = hs.clone();
+        async move {
+            let mut viols: Vec<(String, String)> = vec![];
+            let w = CWorld::start(crate::sess::padding(crate::sess::STOP0), pool(interval_ms, timeout_ms, min_idle), Answer::Ok);
+            let mut active: Vec<(Arc<Stream>, Arc<Session>)> = vec![];
+            let mut sessions: Vec<Arc<Session>> = vec![];
+            let mut in_pool: Vec<bool> = vec![];
+            let mut peak = 0usize;
+            let mut nreq = 0usize;
+            for (step, op) in h.iter().enumerate() {
+                let upto = || vstr(&h[..=step]);
+                match op {
+                    VOp::Start => {
+                        nreq += 1;
+                        let before = w.dials();
+                        let healthy_pooled: Vec<usize> = sessions.iter().enumerate().filter(|(i, s)| !s.is_closed() && in_pool[*i]).map(|(i, _)| i).collect();
+                        let healthy_existing = sessions.iter().any(|s| !s.is_closed());
+                        let none_active = active.is_empty();
+                        let r = crate::sess::within(w.client.create_proxy_stream(("example.com".to_string(), 1000 + nreq as u16))).await;
+                        let (st, sess) = match r {
+                            Some(Ok(x)) => x,
+                            other => {
+                                viols.push(("C13:request-failed".into(), format!("[{}] (virtual time): {:?}", upto(), other.map(|r| r.map(|_| ()).map_err(|e| e.to_string())))));
+                                break;
+                            }
+                        };
+                        let dialled = w.dials() - before;
+                        match sessions.iter().position(|s| Arc::ptr_eq(s, &sess)) {
+                            Some(i) => in_pool[i] = false,
+                            None => {
+                                sessions.push(sess.clone());
+                                in_pool.push(true);
+                            }
+                        }
+                        active.push((st, sess));
+                        peak = peak.max(active.len());
+                        if none_active && healthy_existing && dialled > 0 {
+                            let key = if healthy_pooled.is_empty() { "C13:redial-while-healthy-session-exists:session-never-returned-to-pool" } else { "C13:redial-while-healthy-session-exists:pooled-session-ignored" };
+                            viols.push((key.into(), format!("[{}] (virtual time, interval {interval_ms} ms, timeout {timeout_ms} ms): request #{nreq} started with no other request active and a healthy session established, yet {dialled} new connection(s) were dialled (healthy sessions still in the pool per model: {:?})", upto(), healthy_pooled)));
+                        }
+                    }
+                    VOp::Finish(i) => {
+                        if *i < active.len() {
+                            let (st, sess) = active.remove(*i);
+                            drop(st);
+                            drop(sess);
+                            settle().await;
+                        }
+                    }
+                    VOp::Die(j) => {
+                        w.kill(*j);
+                        settle().await;
+                        tokio::time::sleep(Duration::from_millis(3)).await;
+                        // requests on a dead session are over
+                        active.retain(|(_, s)| !s.is_closed());
+                    }
+                    VOp::Wait(k) => {
+                        let d = if *k == 0 { interval_ms / 2 + 7 } else { timeout_ms + interval_ms + 13 };
+                        tokio::time::sleep(Duration::from_millis(d)).await;
+                        settle().await;
+                        active.retain(|(_, s)| !s.is_closed());
+                    }
+                }
+                let open = sessions.iter().filter(|s| !s.is_closed()).count();
+                if open > peak + min_idle {
+                    let unreachable = sessions.iter().enumerate().filter(|(i, s)| !s.is_closed() && !in_pool[*i] && !active.iter().any(|(_, x)| Arc::ptr_eq(x, s))).count();
+                    let key = if unreachable > 0 { "C13:session-count-exceeds-bound:sessions-never-returned-to-pool" } else { "C13:session-count-exceeds-bound" };
+                    viols.push((key.into(), format!("[{}] (virtual time): {open} sessions open, peak concurrent requests {peak}, min_idle {min_idle}", upto())));
+                }
+                if !viols.is_empty() {
+                    break;
+                }
+            }
+            let _ = hs;
+            for s in &sessions {
+                let _ = s.close().await;
+            }
+            w.client.stop_session_pool_cleanup().await;
+            drop(w);
+            *slot2.lock().unwrap() = viols;
+            Outcome::default()
+        }
+    });
+    let rec = run_exec(&sc, &ExecCfg::default(), &[], 0);
+    let mut v = slot.lock().unwrap().clone();
+    for x in rec.outcome.violations {
+        v.push((x.key, x.detail));
+    }
+    v
+}
+
+fn vhistories(depth: usize) -> Vec<Vec<VOp>> {
+    let mut all = vec![];
+    // (history, active, dialled upper bound, deaths)
+    let mut frontier: Vec<(Vec<VOp>, usize, usize, usize)> = vec![(vec![], 0, 0, 0)];
+    for d in 0..depth {
+        let mut next = vec![];
+        for (h, active, dials, deaths) in &frontier {
+            let mut push = |op: VOp, a: usize, di: usize, de: usize| {
+                let mut n = h.clone();
+                n.push(op);
+                next.push((n, a, di, de));
+            };
+            push(VOp::Start, active + 1, dials + 1, *deaths);
+            for i in 0..*active {
+                push(VOp::Finish(i), active - 1, *dials, *deaths);
+            }
+            if *deaths < 1 {
+                for j in 0..(*dials).min(2) {
+                    push(VOp::Die(j), *active, *dials, deaths + 1);
+                }
+            }
+            if !h.is_empty() && d + 1 < depth {
+                push(VOp::Wait(0), *active, *dials, *deaths);
+                if h.iter().filter(|o| **o == VOp::Wait(1)).count() < 2 {
+                    push(VOp::Wait(1), *active, *dials, *deaths);
+                }
+            }
+        }
+        frontier = next;
+    }
+    // maximal histories that end with a request (the oracle fires at requests and after every step)
+    for (h, ..) in frontier {
+        all.push(h);
+    }
+    all
+}
+
+fn virtual_family(rep: &mut Report, thorough: bool) {
+    let depth = if thorough { 7 } else { 6 };
+    let hs = Arc::new(vhistories(depth));
+    let cfgs: Vec<(u64, u64, usize)> = if thorough { vec![(1000, 3000, 0), (1000, 3000, 1), (1000, 3000, 2), (3000, 1000, 1), (1000, 1000, 1)] } else { vec![(1000, 3000, 0), (1000, 3000, 1), (3000, 1000, 1)] };
+    for (i_ms, t_ms, min_idle) in &cfgs {
+        let (i_ms, t_ms, min_idle) = (*i_ms, *t_ms, *min_idle);
+        let h2 = hs.clone();
+        let res: Vec<Vec<(String, String)>> = crate::par::par_map(hs.len(), 16, move |k| vhistory(i_ms, t_ms, min_idle, h2[k].clone()));
+        for (k, v) in res.into_iter().enumerate() {
+            let h = &hs[k];
+            rep.states += h.len() as u64 + 1;
+            rep.transitions += h.len() as u64;
+            rep.traces_validated += 1;
+            rep.case(Some(&format!("v|{i_ms}|{t_ms}|{min_idle}|{}", vstr(h))));
+            let mut seen = std::collections::HashSet::new();
+            for (key, d) in v {
+                if seen.insert(key.clone()) {
+                    rep.violation(&key, &format!("min_idle {min_idle}: {d}"), json!({"engine": "BX/in-memory", "interval_ms": i_ms, "timeout_ms": t_ms, "min_idle": min_idle, "history": vstr(h)}));
+                }
+            }
+        }
+    }
+    rep.sections.insert("virtual_time_family".into(), json!({"histories_per_config": hs.len(), "depth": depth, "configs": cfgs.iter().map(|c| json!([c.0, c.1, c.2])).collect::<Vec<_>>()}));
+}
+
 pub fn run(tier: Tier) -> i32 {
     let mut rep = Report::new("C13", tier, "model_checking");
     let thorough = tier.is_thorough();
@@ -170,6 +350,7 @@ pub fn run(tier: Tier) -> i32 {
         "a request = Client::create_proxy_stream to a loopback echo target; finishing a request = dropping the stream and session handles, as the front-ends do when a connection ends".into(),
         "TLS connections are counted by a TCP relay in front of the real server".into(),
     ];
+    virtual_family(&mut rep, thorough);
     let depth = if thorough { 6 } else { 4 };
     let mut hs = histories(depth);
     // plus every history over {start, finish} alone up to depth 6 (7): the plain request sequences
@@ -298,5 +479,5 @@ pub fn run(tier: Tier) -> i32 {
             rep.sections.insert("bx".into(), json!({"histories": hs.len(), "short_timeout_histories_with_a_wait": wait_family, "depth": depth, "min_idle_values": if thorough { vec![0, 1, 2] } else { vec![0, 1] }}));
         }
     }
-    rep.finish("BX over LX: every history of length <= d over {start request, burst of 2 concurrent requests, finish request i, session j dies} x min_idle in {0,1,2} (+ a short-timeout family: every history over {start, finish, wait longer than the idle timeout} with one wait, idle timeout 1 s) through the real Client and Server over TLS; per request the session identity and the number of new TLS connections, per step the number of open sessions vs peak concurrency + min_idle; non-trivial = distinct history with >= 2 requests")
+    rep.finish("BX in virtual time: every history of depth 6 (7) over {start request, finish request i, the server drops connection j, wait I/2, wait > T+I} on the real Client over the in-memory dialer seam (H12) against a scripted TLS server, 3 (5) interval/timeout/min_idle configurations; BX over LX: every history of length <= d over {start request, burst of 2 concurrent requests, finish request i, session j dies} x min_idle in {0,1,2} (+ a short-timeout family: every history over {start, finish, wait longer than the idle timeout} with one wait, idle timeout 1 s) through the real Client and Server over TLS; per request the session identity and the number of new TLS connections, per step the number of open sessions vs peak concurrency + min_idle; non-trivial = distinct history with >= 2 requests")
 }
